@@ -106,11 +106,11 @@ theorem syn_families_correct {α : Type} (o : Ops α) (f : Family) (hf : f ∈ f
 /-- and for division by / of a scalar, in every field of characteristic zero, whenever the divisors
 the code uses are non-zero -/
 theorem frac_families_correct {K : Type} [Field K] [CharZero K] (f : Family) (hf : f ∈ families) (htm : f.treeMode = false)
-    (hk : f.kind = .frac) (ks : List Nat) (hks : ks ∈ f.keys) (j : Nat) (hj : j < f.nOut ks)
+    (hk : f.kind = .frac) (hdf : f.divFree = false) (ks : List Nat) (hks : ks ∈ f.keys) (j : Nat) (hj : j < f.nOut ks)
     (env : Nat → K)
     (hall : ∀ a ∈ f.allowed ks, a.divOK (fieldOps K) env ∧ a.eval (fieldOps K) env ≠ 0) :
     (f.post ks (lookup f.unit ks).outE j).eval (fieldOps K) env = (f.spec ks j).eval (fieldOps K) env :=
-  (Family.frac_sound fieldOps_fieldLike (all_ok f hf) htm hk hks hj env hall).2
+  (Family.frac_sound fieldOps_fieldLike (all_ok f hf) htm hk hdf hks hj env hall).2
 
 /-- non-vacuity: the tables are not empty and the units are not the default unit -/
 example : (lookup "mul" [4, 3, 4]).nIn = 28 ∧ (lookup "mul" [4, 3, 4]).outs.length = 12 ∧
